@@ -463,8 +463,15 @@ func (e *schedEngine) settle() {
 				c.Release(runs[k], Action{Kind: "go"})
 				c.Quiesce()
 			}
+			if e.prof.PreemptPct > 0 && stmtPoints > 0 && c.Ch.Bool(1, 2, "midpass-statement") {
+				// ... and the pass may be stopped again a few statements into this visit (between
+				// looking at the dependencies and acting on what was seen)
+				vsync.ArmStmt(1+c.Ch.Choose(30, "midpass-stmt-depth"), vp[0].GID)
+				c.Count("midpass_statement_preemptions_armed")
+			}
 			c.Release(vp[0], Action{Kind: "go"})
 			c.Quiesce()
+			vsync.ArmStmt(0, 0)
 		}
 		if s2 := e.signature(); s2 != sig {
 			sig, stable = s2, 0
@@ -713,6 +720,11 @@ func RunSchedWorld(c *Ctl, prof *SchedProfile, g *GraphSpec, res *RunResult) {
 				// a nested Schedule runs its first pass at once: observe only the fixpoint
 				c.batch++
 				c.holdBatch = true
+				if prof.PreemptPct > 0 && stmtPoints > 0 && c.Ch.Bool(prof.PreemptPct, 100, "preempt-nested-loop") {
+					// the nested loop may be held in the middle of its first pass while other loops run theirs
+					vsync.ArmStmt(1+c.Ch.Choose(90, "nested-loop-stmt-depth"), parks[k].GID)
+					c.Count("nested_loop_preemptions_armed")
+				}
 				c.Release(parks[k], Action{Kind: "go"})
 				c.Quiesce()
 				e.settle()
